@@ -11,11 +11,11 @@ SRC=$(git diff --name-only)
 echo "demo=$DEMO pkg=$PKG src=$SRC"
 cd $WT/$MOD
 go build ./... && go vet ./... >/dev/null 2>&1; echo "build+vet rc=$?"
-go test -count=1 -run 'Mutation|mutation|Demo' $PKG > /tmp/mut-$ID.with.log 2>&1; W=$?
+go test -count=1 -run 'Mutation|mutation|Demo' $PKG > ${WTROOT:-/tmp/mut}-$ID.with.log 2>&1; W=$?
 ( cd $WT && git apply -R MUTATION/patch.diff )
-go test -count=1 -run 'Mutation|mutation|Demo' $PKG > /tmp/mut-$ID.without.log 2>&1; WO=$?
+go test -count=1 -run 'Mutation|mutation|Demo' $PKG > ${WTROOT:-/tmp/mut}-$ID.without.log 2>&1; WO=$?
 ( cd $WT && git apply MUTATION/patch.diff )
-mv $WT/$DEMO /tmp/mut-$ID.demo.hold
-go test -count=1 ./... > /tmp/mut-$ID.suite.log 2>&1; S=$?
-mv /tmp/mut-$ID.demo.hold $WT/$DEMO
+mv $WT/$DEMO ${WTROOT:-/tmp/mut}-$ID.demo.hold
+go test -count=1 ./... > ${WTROOT:-/tmp/mut}-$ID.suite.log 2>&1; S=$?
+mv ${WTROOT:-/tmp/mut}-$ID.demo.hold $WT/$DEMO
 echo "RESULT id=$ID demo_with_change_rc=$W (want !=0) demo_without_change_rc=$WO (want 0) suite_with_change_rc=$S (want 0)"
